@@ -200,12 +200,8 @@ let thr_cell_ok kind count binary (tcell : string) (cell : string) : bool =
       List.exists ok cands
     end
 
-let e2e_eval (case : string) (impl : string) : (bool * string) =
-  match toks case with
-  | [api; flag; envv] ->
-    let binary = e2e_binary api flag envv in
-    if String.length impl < 3 || String.sub impl 0 3 <> "ok " then (false, "outcome:" ^ impl) else
-    let rows = List.filter (fun r -> r <> "") (String.split_on_char ';' (String.sub impl 3 (String.length impl - 3))) in
+let e2e_table (binary : bool) (table : string) : (bool * string) =
+    let rows = List.filter (fun r -> r <> "") (String.split_on_char ';' table) in
     let rows = List.map (fun r -> match String.split_on_char '|' r with
         | [b; l; c0; c1; c2; c3] -> (b, l, [c0; c1; c2; c3])
         | _ -> failwith ("e2e row " ^ r)) rows in
@@ -242,6 +238,33 @@ let e2e_eval (case : string) (impl : string) : (bool * string) =
         (match !rest with [] -> () | (_, l, cells) :: _ -> fail (name ^ ":unexpected-row:" ^ l ^ ":" ^ String.concat "," cells))
       | _ -> fail (name ^ ":missing-bench-row")) e2e_benches;
     (match !problem with None -> (true, "") | Some m -> (false, String.map (fun c -> if c = ' ' then '_' else c) m))
+
+(* split on " @@ " *)
+let split_tables (s : string) : string list =
+  let sep = " @@ " in
+  let rec go acc start i =
+    if i + 4 > String.length s then List.rev (String.sub s start (String.length s - start) :: acc)
+    else if String.sub s i 4 = sep then go (String.sub s start (i - start) :: acc) (i + 4) (i + 4)
+    else go acc start (i + 1) in
+  go [] 0 0
+
+let e2e_eval (case : string) (impl : string) : (bool * string) =
+  match toks case with
+  | [api; flag; envv] ->
+    if String.length impl < 3 || String.sub impl 0 3 <> "ok " then (false, "outcome:" ^ impl) else
+    let body = String.sub impl 3 (String.length impl - 3) in
+    if String.length api > 4 && String.sub api 0 4 = "seq-" then begin
+      (* one runner after the other in one process: each table with that runner's own format *)
+      let fmts = List.init (String.length api - 4) (fun i -> api.[4 + i] = 'b') in
+      let tables = split_tables body in
+      if List.length tables <> List.length fmts then (false, "expected-one-table-per-runner") else
+      List.fold_left (fun (ok, m) (idx, (b, t)) ->
+          if not ok then (ok, m) else
+          match e2e_table b t with
+          | (true, _) -> (true, "")
+          | (false, why) -> (false, Printf.sprintf "runner-%d-of-%s:%s" (idx + 1) api why))
+        (true, "") (List.mapi (fun i x -> (i, x)) (List.combine fmts tables))
+    end else e2e_table (e2e_binary api flag envv) body
   | _ -> failwith "e2e"
 
 let e2em line = let (c, i) = split_sb line in
